@@ -18,7 +18,7 @@ import time
 from lib.common import PY, REPO, VERIF
 
 ENV = dict(os.environ, PYTHONPATH=f"{VERIF}/harness/fsaudit:{VERIF}/harness:{REPO}", PYTHONHASHSEED="0")
-HANG_S = 60
+HANG_S = 150  # a true hang is for ever; the bound is generous so that a loaded machine is not mistaken for one
 
 
 def model_allowed(ctx, sc):
@@ -185,7 +185,7 @@ def part_b(ctx):
         if os.path.exists(mark):
             os.remove(mark)
         try:
-            p = subprocess.run([PY, drv, what, str(w), src, out], env=dict(ENV, VERIF_FAULT=f"{what}:{idx}:{kind}", VERIF_FAULT_MARK=mark), capture_output=True, text=True, timeout=HANG_S * 2)
+            p = subprocess.run([PY, drv, what, str(w), src, out], env=dict(ENV, VERIF_FAULT=f"{what}:{idx}:{kind}", VERIF_FAULT_MARK=mark), capture_output=True, text=True, timeout=HANG_S)
             ok = "DRIVER-SUCCESS" in p.stdout or p.returncode == 0
             hang = False
         except subprocess.TimeoutExpired:
